@@ -45,8 +45,8 @@ let () = register "c07.diags" (fun line ->
   if List.exists (fun (_, b) -> not (in_fragment b)) blocks then "SKIP-FRAGMENT\t-\t-" else
   let gn = List.map (fun (_, b) -> gnames (s1_gmap (first_pass the_cfg b))) blocks in
   let all = List.concat gn in
-  let model = List.map (fun (p, b) -> (p, go_diags the_cfg b all)) blocks in
   let others i = List.concat (remove_nth i gn) in
+  let model = List.mapi (fun i (p, b) -> (p, go_diags the_cfg b all (others i))) blocks in
   let spec = List.mapi (fun i (p, b) -> (p, spec_diags the_cfg b (others i))) blocks in
   let cls = ref [] in
   (* class multi_local_order: repaired (fixes/C07-multi-local-order.diff) - `multi_local_order b` no longer excuses a deviation *)
@@ -54,9 +54,7 @@ let () = register "c07.diags" (fun line ->
      C07_laid_pos_clean / C07_laid_distinct): position filter clean, declaration Locs pairwise distinct, flags ok.
      They fail only through the lexer's column defects (C04 findings): one class, one finding *)
   if List.exists (fun (_, b) -> not (pos_clean b) || not (decl_locs_distinct b) || not (flags_ok b)) blocks then cls := "pos_filter" :: !cls;
-  let le = ref false in
-  List.iteri (fun i (_, b) -> if later_elsewhere the_cfg b (others i) then le := true) blocks;
-  if !le then cls := "later_elsewhere" :: !cls;
+  (* class later_elsewhere: repaired (fixes/C07-later-elsewhere.diff) - `later_elsewhere b others` no longer excuses a deviation *)
   render model ^ "\t" ^ render spec ^ "\t" ^ (if !cls = [] then "-" else String.concat "," (List.rev !cls)))
 
 (* tie of the configured name sets: case = hex name; answer = four bits ignored/luain/sysnouse/locnouse *)
